@@ -407,6 +407,28 @@ func (o *voteAcctOracle) AfterStep(w *World, vs []*view) {
 						}
 					}
 				}
+				// ---- the converse: what the set itself holds (one vote per validator slot) and does not report
+				held := map[string]int64{}
+				var heldAny int64
+				for i := 0; i < set.Size() && i < len(ref.vals); i++ {
+					if vt := set.GetByIndex(i); vt != nil {
+						if _, ok := w.validVote(vt); ok {
+							held[vt.BlockID.Key()] += ref.vals[i].power
+							heldAny += ref.vals[i].power
+						}
+					}
+				}
+				w.Evals.Inc("C15.converse")
+				for bk, p := range held {
+					if p*3 > ref.total*2 {
+						if id, ok := set.TwoThirdsMajority(); !ok || id.Key() != bk {
+							w.violate("C15", "majority-not-reported", fmt.Sprintf("t%d", t), "node %d holds valid votes of %d of %d voting power for one block at h=%d r=%d type=%d, yet its vote set reports no +2/3 majority for it", v.nd.id, p, ref.total, rs.Height, r, t)
+						}
+					}
+				}
+				if heldAny*3 > ref.total*2 && !set.HasTwoThirdsAny() {
+					w.violate("C15", "any-majority-not-reported", fmt.Sprintf("t%d", t), "node %d holds valid votes of %d of %d voting power at h=%d r=%d type=%d, yet its vote set does not report +2/3 of any", v.nd.id, heldAny, ref.total, rs.Height, r, t)
+				}
 				if set.HasTwoThirdsAny() && l.powerAny(ref, rs.Height, r, t)*3 <= ref.total*2 {
 					w.violate("C15", "false-any-majority", fmt.Sprintf("t%d", t), "node %d reports +2/3 of any votes at h=%d r=%d type=%d but distinct validators seen hold %d of %d", v.nd.id, rs.Height, r, t, l.powerAny(ref, rs.Height, r, t), ref.total)
 				}
